@@ -283,3 +283,53 @@ m("c12-commit-by-ref", "C12", "nomt/src/overlay.rs",
   "    /// Mark the overlay as committed and return a marker.",
   "    /// Clone-like handle (test of the witness).\n    pub fn dup(&self) -> Self {\n        Overlay { inner: self.inner.clone() }\n    }\n\n    /// Mark the overlay as committed and return a marker.",
   None)  # an explicit duplicate is a different API, the move-semantics witness still holds: silent
+
+# ---------------- C15 ----------------
+m("c15-seglog-before-in-memory", "C15", "nomt/src/rollback/mod.rs",
+  "        let mut in_memory = self.shared.in_memory.lock();\n        let mut seglog = self.shared.seglog.lock();\n\n        let record_id = seglog.append(&delta_bytes)?;\n        in_memory.push_recent(record_id, delta);\n        Ok(())",
+  "        let mut seglog = self.shared.seglog.lock();\n        let mut in_memory = self.shared.in_memory.lock();\n\n        let record_id = seglog.append(&delta_bytes)?;\n        in_memory.push_recent(record_id, delta);\n        Ok(())",
+  "L1|lock-order|cycle|")
+m("c15-drop-read-guard-in-read", "C15", "nomt/src/lib.rs",
+  "        let _guard = self.access_lock.read();\n        self.store.load_value(path)",
+  "        self.store.load_value(path)",
+  None)  # reported-not-required per DESIGN (a single lookup is atomic under Tree.shared): silent
+m("c15-delta-builder-before-guard", "C15", "nomt/src/lib.rs",
+  "        let access_guard = params\n            .take_global_guard\n            .then(|| RwLock::read_arc(&self.access_lock));\n\n        let store = self.store.clone();\n        let rollback_delta = if params.record_rollback_delta {\n            self.store\n                .rollback()\n                .map(|r| r.delta_builder(&store, &live_overlay))\n        } else {\n            None\n        };\n",
+  "        let store = self.store.clone();\n        let rollback_delta = if params.record_rollback_delta {\n            self.store\n                .rollback()\n                .map(|r| r.delta_builder(&store, &live_overlay))\n        } else {\n            None\n        };\n        let access_guard = params\n            .take_global_guard\n            .then(|| RwLock::read_arc(&self.access_lock));\n",
+  "L6|Nomt::begin_session|guard-before|")
+m("c15-no-guard-in-begin-session", "C15", "nomt/src/lib.rs",
+  "        let access_guard = params\n            .take_global_guard\n            .then(|| RwLock::read_arc(&self.access_lock));\n",
+  "        let access_guard = if false { Some(RwLock::read_arc(&self.access_lock)) } else { None };\n        let _ = params.take_global_guard;\n",
+  "L6|Nomt::begin_session|")
+m("c15-block-after-take", "C15", "nomt/src/beatree/mod.rs",
+  "            read_transaction_counter.block_until_zero();\n\n            // It is safe for a read transaction to be created here, since it follows the conclusion\n            // of the most recent sync and therefore references no logically free pages.\n\n            let mut shared = shared.write();\n            staged_changeset = shared.take_staged_changeset();\n",
+  "            let mut shared = shared.write();\n            staged_changeset = shared.take_staged_changeset();\n            read_transaction_counter.block_until_zero();\n",
+  "L7|beatree::Tree::prepare_sync|barrier-before|take_staged_changeset")
+m("c15-overlay-commit-without-write-guard", "C15", "nomt/src/lib.rs",
+  "        let _write_guard = nomt.access_lock.write();\n\n        {\n            let mut shared = nomt.shared.lock();\n            if shared.root != self.prev_root() {",
+  "        let _write_guard = nomt.access_lock.read();\n\n        {\n            let mut shared = nomt.shared.lock();\n            if shared.root != self.prev_root() {",
+  "L2|overlay::Overlay::commit|call=")
+m("c15-guard-dropped-between-check-and-set", "C15", "nomt/src/lib.rs",
+  "        let _write_guard = self.take_global_guard.then(|| nomt.access_lock.write());\n\n        {\n            let mut shared = nomt.shared.lock();\n            if shared.root != self.prev_root {\n                anyhow::bail!(\n                    \"Changeset no longer valid (expected previous root {:?}, got {:?})\",\n                    self.prev_root,\n                    shared.root\n                );\n            }\n            shared.root = Root(self.merkle_output.root);",
+  "        let _write_guard = self.take_global_guard.then(|| nomt.access_lock.write());\n\n        {\n            let shared = nomt.shared.lock();\n            if shared.root != self.prev_root {\n                anyhow::bail!(\n                    \"Changeset no longer valid (expected previous root {:?}, got {:?})\",\n                    self.prev_root,\n                    shared.root\n                );\n            }\n        }\n        drop(_write_guard);\n        let _write_guard = self.take_global_guard.then(|| nomt.access_lock.write());\n        {\n            let mut shared = nomt.shared.lock();\n            shared.root = Root(self.merkle_output.root);",
+  "L5|FinishedSession::commit|one-write-guard")
+m("c15-root-store-without-shared-lock", "C15", "nomt/src/lib.rs",
+  "    pub fn root(&self) -> Root {\n        self.shared.lock().root.clone()\n    }",
+  "    pub fn root(&self) -> Root {\n        self.shared.lock().root.clone()\n    }\n\n    /// helper\n    pub fn relock(&self) {\n        let _a = self.shared.lock();\n        let _b = self.shared.lock();\n    }",
+  "L1|Nomt::relock|nested|Nomt.shared")
+m("c15-set-guardless-in-api", "C15", "nomt/src/lib.rs",
+  "    pub fn witness_mode(mut self, witness: WitnessMode) -> Self {\n",
+  "    pub fn unguarded(mut self) -> Self {\n        self.take_global_guard = false;\n        self\n    }\n\n    /// Witness.\n    pub fn witness_mode(mut self, witness: WitnessMode) -> Self {\n",
+  "L3|SessionParams::unguarded|take_global_guard=false")
+m("c15-snapshot-before-add-one", "C15", "nomt/src/beatree/mod.rs",
+  "        self.read_transaction_counter.add_one();\n        let shared = self.shared.read();\n",
+  "        let shared = self.shared.read();\n        self.read_transaction_counter.add_one();\n",
+  "L7|beatree::Tree::read_transaction|add_one-before-snapshot")
+m("c15-sync-lock-inside-tree-shared", "C15", "nomt/src/beatree/mod.rs",
+  "    pub fn lookup(&self, key: Key) -> Option<Vec<u8>> {\n        let shared = self.shared.read();\n",
+  "    pub fn lookup(&self, key: Key) -> Option<Vec<u8>> {\n        let shared = self.shared.read();\n        let _no_sync = self.sync.lock();\n",
+  "L1|lock-order|cycle|")
+m("c15-benign-extra-lock-leaf", "C15", "nomt/src/beatree/mod.rs",
+  "    fn finish_sync(shared: &Arc<RwLock<Shared>>, bbn_index: Index) {\n        // Take the shared lock again to complete the update to the new shared state\n        let mut shared = shared.write();\n",
+  "    fn finish_sync(shared: &Arc<RwLock<Shared>>, bbn_index: Index) {\n        // Take the shared lock again to complete the update to the new shared state\n        let mut shared = shared.write();\n        let _tracked = shared.leaf_store.all_tracked_freelist_pages();\n",
+  None)  # Tree.shared -> allocator Store.sync: a new order pair but no cycle (the allocator guard is released pre-meta): silent
